@@ -41,7 +41,9 @@ def gen_case(run, i):
                 kernel=[(3, 7), (1, 1), (7, 3), (3, 3), (1, 5), (3, 5), (9, 3), (5, 5), (5, 1), (9, 5), (7, 7), (5, 3)][(i // 2) % 12] if model == 'gain'
                 else rng.choice([(3, 3), (3, 5), (5, 5), (5, 3), (9, 5)]),
                 halvings=sorted(rng.sample([1, 2, 3, 4, 5, 6], 3)), holes=rng.random() < 0.5,
-                threads=rng.choice([1, 2]), nb=rng.choice([1, 1, 2]))
+                threads=rng.choice([1, 2]), nb=rng.choice([1, 1, 2]),
+                # how the finer image reaches the processing grid: the default, and two kernels that read a neighbouring pixel
+                downsampling=['average', 'bilinear', 'average', 'cubic'][(i // 3) % 4])
 
 
 def seams(src_path, ref_path, kernel, mbm):
@@ -87,7 +89,8 @@ def run(run: common.Run):
                 sv[rng.randrange(src.h), rng.randrange(src.w)] = False
         pair = fusion.write_pair(tmp, 'c05', src, ref, s, r, sv, None)
         proc_ref = src.px <= ref.px
-        mc = dict(upsampling=case['upsampling'], r2_inpaint_thresh=None)
+        mc = dict(upsampling=case['upsampling'], r2_inpaint_thresh=None, downsampling=case['downsampling'])
+        run.hist[f"downsampling={case['downsampling']}"] += 1
         kw = dict(model=case['model'], kernel_shape=case['kernel'], proc_crs='auto', param=True, threads=case['threads'],
                   model_config=mc)
         try:
@@ -123,7 +126,7 @@ def run(run: common.Run):
             # (a) parameter image
             pm_eq = np.array_equal(res.param_masks, base.param_masks)
             if not pm_eq:
-                run.fail(sub, 'parameter image validity depends on the block partition', signature=dict(kind='param-mask'))
+                run.fail(sub, 'parameter image validity depends on the block partition', signature=dict(kind='param-mask', downsampling=case['downsampling'], proc=res.proc_crs))
                 continue
             if exact:
                 run.hist['parameter images compared bit-exactly'] += 1
@@ -137,7 +140,7 @@ def run(run: common.Run):
                 d = np.nanmax(np.abs(res.param[:2 * nb] - base.param[:2 * nb]))
                 k = np.unravel_index(np.nanargmax(np.abs(res.param[:2 * nb] - base.param[:2 * nb])), base.param[:2 * nb].shape)
                 run.fail(sub, f'parameter image depends on the block partition ({nblk} blocks): max abs diff {d} at band/row/col {k}',
-                         signature=dict(kind='param-partition'))
+                         signature=dict(kind='param-partition', downsampling=case['downsampling'], proc=res.proc_crs))
                 continue
             # (a') the R² band is part of the parameter image: same validity, same numbers (float32 expansion of 1 - RSS/TSS in
             # the kernel sums: compared relative to max(1, |R²|); one-pixel kernels have zero variance, their R² is noise)
@@ -152,11 +155,11 @@ def run(run: common.Run):
                     k = np.unravel_index(np.argmax(np.where(both, rel, np.inf * (fa != fb))), a.shape) if (fa != fb).any() else \
                         np.unravel_index(np.argmax(rel), a.shape)
                     run.fail(sub, f'R2 band of the parameter image depends on the block partition ({nblk} blocks): {float(a[k])!r} vs '
-                             f'{float(b[k])!r} at band/row/col {tuple(int(x) for x in k)}', signature=dict(kind='param-partition', band='r2'))
+                             f'{float(b[k])!r} at band/row/col {tuple(int(x) for x in k)}', signature=dict(kind='param-partition', band='r2', downsampling=case['downsampling'], proc=res.proc_crs))
                     continue
             # (b) / (c) corrected image
             if not np.array_equal(res.corr_mask, base.corr_mask):
-                run.fail(sub, 'corrected image validity depends on the block partition', signature=dict(kind='corr-mask'))
+                run.fail(sub, 'corrected image validity depends on the block partition', signature=dict(kind='corr-mask', downsampling=case['downsampling'], proc=res.proc_crs))
                 continue
             diff = np.zeros(base.corr_mask.shape, bool)
             for b_ in range(nb):
@@ -169,7 +172,7 @@ def run(run: common.Run):
                     rr, cc = np.argwhere(diff)[0]
                     run.fail(sub, f'corrected image depends on the block partition ({nblk} blocks, up-sampling '
                              f'{case["upsampling"]}, proc {res.proc_crs}): {int(diff.sum())} pixels differ, e.g. ({rr},{cc})',
-                             signature=dict(kind='corr-partition'))
+                             signature=dict(kind='corr-partition', downsampling=case['downsampling'], proc=res.proc_crs))
                     continue
             else:
                 # differences confined to source pixels within one processing pixel of a seam
@@ -182,7 +185,7 @@ def run(run: common.Run):
                 run.hist['cubic_spline: pixels differing near seams'] += int(diff.sum())
                 if far:
                     run.fail(sub, f'corrected pixels differing between partitions lie further than one processing pixel from '
-                             f'any block boundary: {far[:3]} ({len(far)} pixels)', signature=dict(kind='corr-far-from-seam'))
+                             f'any block boundary: {far[:3]} ({len(far)} pixels)', signature=dict(kind='corr-far-from-seam', downsampling=case['downsampling'], proc=res.proc_crs))
                     continue
         run.sample(dict(case={k: case[k] for k in ('i', 'model', 'kernel', 'halvings', 'upsampling', 'family')},
                         proc=base.proc_crs, exact=exact), 4)
